@@ -228,6 +228,19 @@ class SubInterp:
                     return ("BAD", "nested comprehension emits the outer element once per inner iteration: duplicates", e)
                 return ("UNKNOWN", "nested comprehension", e)
             g = e.generators[0]
+            # [x for x, t in zip(SRC, other) if ...]: zip walks its arguments in
+            # step and stops at the shortest, so the component drawn from a
+            # sub-list yields elements of it, in order, each at most once
+            if (
+                isinstance(g.iter, ast.Call) and dotted(g.iter.func) == "zip" and g.iter.args and not g.iter.keywords
+                and isinstance(g.target, ast.Tuple) and len(g.target.elts) == len(g.iter.args) and isinstance(e.elt, ast.Name)
+            ):
+                vals = [self.eval(a, env) for a in g.iter.args]
+                for i, (v, t) in enumerate(zip(vals, g.target.elts)):
+                    if isinstance(t, ast.Name) and t.id == e.elt.id:
+                        if is_sub(v) and v[0] != "BAD":
+                            return ("BUILD", (("*", 0),), apps(v))
+                        return v if v[0] in ("BAD", "UNKNOWN") else ("OTHER",)
             src = self.eval(g.iter, env)
             if not is_sub(src):
                 return src if src[0] in ("BAD", "UNKNOWN") else ("OTHER",)
